@@ -202,7 +202,12 @@ def _write_main(crate_dir, prefix, entries, with_main, nonce=0):
     line = HEADER.count("\n") + FWD.count("\n") + 1
     starts, ends, idxs = [], [], []
     for n, (i, text) in enumerate(entries):
-        if with_main and n % 3 == 1:
+        if with_main and n % 7 == 3:
+            # invoked where the name `pelite` ALSO denotes a local module (a helper module named after the library):
+            # the expansion must name the crate absolutely (round-6 change C17-r6-2 dropped the leading `::`)
+            item = ("mod shadow_%d { #[allow(dead_code)] mod pelite { pub fn helper() {} } pub const V: &[::pelite::pattern::Atom] = ::pelite::pattern!(%s); }\n"
+                    "const %s%d: &[Atom] = shadow_%d::V;\n" % (i, text, prefix, i, i))
+        elif with_main and n % 3 == 1:
             item = "const %s%d: &[Atom] = fwd!(%s);\n" % (prefix, i, text)
         else:
             item = "const %s%d: &[Atom] = pelite::pattern!(%s);\n" % (prefix, i, text)
